@@ -26,6 +26,7 @@ package pdnode_coord
 
 // too few nodes: refuse instead of producing a degraded layout
 //@ func getRebalancedNamespacePartitions(ns string, partitionNum int, replica int, oldPartitionNodes [][]string, currentNodes map[string]cluster.NodeInfo, balanceVer string) ([][]string, *cluster.CoordErr)
+//@   requires 0 <= partitionNum && partitionNum < 1048576 && 0 <= replica && replica < 1048576
 //@   ensures old(len(currentNodes)) < replica ==> result0 == nil && result1 == ErrNodeUnavailable
 //@   modifies *
 
@@ -145,7 +146,7 @@ package pdnode_coord
 // nodes are refused; the ring handed to the layout functions has all totalCnt >= replica nodes
 //@ func getRebalancedPartitionsFromNameList(ns string, partitionNum int, replica int, oldPartitionNodes [][]string, nodeNameList []SortableStrings, balanceVer string) ([][]string, *cluster.CoordErr)
 //@   opt autoloops
-//@   requires 0 <= partitionNum && partitionNum < 1048576 && 0 <= replica && replica < 1048576 && len(nodeNameList) < 1048576
+//@   requires 0 <= partitionNum && partitionNum < 1048576 && 0 <= replica && replica < 1048576
 //@   trusted nooverflow the number of nodes of a cluster (totalCnt, idx) is far below 2^63
 //@   ensures result1 != nil ==> result0 == nil && result1 == ErrNodeUnavailable
 //@   modifies *
